@@ -35,6 +35,25 @@ func ruleC08(r *Report) {
 	br := &BoundsRules{R: r, A: a, S: sc}
 	sel, _ := encCertSelector(p)
 	br.Check(append([]*ssa.Function{sel}, stringHelpersOf(p, sel)...), "C08.cert-index", boundsOpts{OnlySchemaDerived: true})
+	// "undecryptable or malformed ciphertext is a validation failure": under the SP's decrypt step nothing indexes,
+	// slices or dereferences without a guard (C11.bounds, C11.nilsrc and C11.padding, borrowed) - a panic is not a
+	// validation failure, and anyone can encrypt to the SP's public certificate
+	r.Rule("C08.malformed", "malformed ciphertext is an error on the SP, not a panic: every index/slice and every maybe-nil lookup under xmlenc.Decrypt and the SP's decrypt step is guarded, and the padding stripper rejects exactly len<1, pad<1, pad>len (C11.bounds/nilsrc/padding, borrowed)", 6)
+	for _, from := range []string{"C11.bounds", "C11.nilsrc", "C11.padding"} {
+		from := from
+		r.borrow(from, "C08.malformed", func() {
+			a2 := NewAnalysis(p)
+			fns := sortedFns(p, sc.Decrypt)
+			switch from {
+			case "C11.bounds":
+				(&BoundsRules{R: r, A: a2, S: sc}).Check(fns, "C11.bounds", boundsOpts{})
+			case "C11.nilsrc":
+				NewNilRules(r, a2, sc).Check(fns, "", "C11.nilsrc")
+			case "C11.padding":
+				checkPadding(r, a2, sc, "C11.padding", false)
+			}
+		})
+	}
 	r.Rule("C08.cipher", "the block ciphers the root package (where the IdP picks the assertion cipher) refers to are ciphers whose Encrypt/Decrypt pair passes the C10 framing and flow obligations on this tree (xmlenc.GCM's encrypter does not: known findings)", 1)
 	safely(r, func() { checkAssertionCipher(r, p, "C08.cipher") })
 	r.Rule("C08.current-key", "the encryption certificate is a function of the metadata registered now: the selector and the helpers it is split into read no package-level variable that the library writes at run time (a cache keyed by entity ID keeps encrypting to a key the SP has retired)", 1)
